@@ -1108,6 +1108,9 @@ by scanning the arena memory
 ----------------------------------------------------------- */
 
 static void mi_segment_abandon(mi_segment_t* segment, mi_segments_tld_t* tld) {
+  // not while we are in `mi_segment_force_abandon` (`dont_free` is set): it still walks the segment
+  // and abandons it itself as its last action (abandoning publishes the segment to other threads).
+  if (segment->dont_free) return;
   mi_assert_internal(segment->used == segment->abandoned);
   mi_assert_internal(segment->used > 0);
   mi_assert_internal(segment->abandoned_visits == 0);
@@ -1136,7 +1139,6 @@ static void mi_segment_abandon(mi_segment_t* segment, mi_segments_tld_t* tld) {
   _mi_stat_increase(&tld->stats->segments_abandoned, 1);
   mi_segments_track_size(-((long)mi_segment_size(segment)), tld);
   segment->thread_id = 0;
-  segment->dont_free = false;      // (can still be set if we are called from a force abandon)
   segment->abandoned_visits = 1;   // from 0 to 1 to signify it is abandoned
   if (segment->was_reclaimed) {
     tld->reclaim_count--;
@@ -1453,12 +1455,10 @@ static void mi_segment_force_abandon(mi_segment_t* segment, mi_segments_tld_t* t
       {
         // abandon the page if it is still in-use (this will free it if possible as well)
         mi_assert_internal(segment->used > 0);
-        // note: keep `dont_free` set, also for the last page: the delayed frees that are processed as part of the
-        // abandon may free this page (and other pages of this segment) and we still look at the page afterwards.
+        // note: `dont_free` stays set, also for the last page: the delayed frees that are processed as part of the
+        // abandon may free this page (and other pages of this segment) and we still look at the page afterwards;
+        // while it is set the segment is neither freed nor abandoned as a whole (see `_mi_segment_page_abandon`).
         _mi_page_force_abandon(page);
-        // if this was the last used page (perhaps only because the other ones just got freed), the segment is
-        // abandoned now (and may already be reclaimed by another thread): we should no longer access it.
-        if (mi_atomic_load_relaxed(&segment->thread_id) != _mi_thread_id()) return;
         // it might be freed, reset the slice (note: relies on coalesce setting the slice_offset)
         slice = mi_slice_first(slice);
       }
@@ -1467,10 +1467,14 @@ static void mi_segment_force_abandon(mi_segment_t* segment, mi_segments_tld_t* t
   }
   segment->dont_free = false;
   mi_assert(segment->used == segment->abandoned);
-  mi_assert(segment->used == 0);
-  if (segment->used == 0) {  // paranoia
+  if (segment->used == 0) {
     // all free now
     mi_segment_free(segment, false, tld);
+  }
+  else if (segment->used == segment->abandoned) {
+    // all remaining pages are abandoned: abandon the entire segment. This publishes the segment so
+    // it must be the last thing we do (another thread may reclaim and free it right away).
+    mi_segment_abandon(segment, tld);
   }
   else {
     // perform delayed purges
